@@ -9,6 +9,41 @@ From ZI Require Import Model.Ro Model.Adapter Model.Lookup Model.RegSys Spec.Reg
 
 Ltac nlia := unfold node, spec, name in *; lia.
 
+(* ================================================================== stable interface
+   (the invariants of reachable systems; per-step preservation: PInv_step / VInv_step below;
+   [Reach], [Bs], [wf_op], [wf_hist] are in Spec/RegChain.v) *)
+
+(* every base has a smaller number than the registry: the registry graph is acyclic *)
+Definition ranked (B : nat -> list nat) : Prop := forall y b, In b (B y) -> b < y.
+
+Definition allPush (s : sys) : Prop := forall i, rs_flavour (get s i) = Push.
+
+(* sub-registry lists: every listed sub-registry is a later, existing registry; and every
+   registry is listed in each of its bases (the mirror of __bases__) *)
+Definition subs_ok (s : sys) : Prop :=
+  (forall r y, In y (rs_subs (get s r)) -> r < y /\ y < length s) /\
+  (forall r b, In b (Bs s r) -> In r (rs_subs (get s b))).
+
+(* the cached ``ro`` of every registry is the C3 order of the current base graph *)
+Definition ro_coherent (s : sys) : Prop := forall r, r < length s -> rs_ro (get s r) = fresh_ro s r.
+
+(* invariant of push-flavour systems *)
+Definition PInv (s : sys) : Prop := allPush s /\ ranked (Bs s) /\ subs_ok s /\ ro_coherent s.
+
+Definition allVer (s : sys) : Prop := forall i, i < length s -> rs_flavour (get s i) = Verifying.
+
+(* the generation snapshot of a verifying registry: taken over ro[1:], of existing registries,
+   never ahead of the current generations, and as long as it still matches the current
+   generations the cached ``ro`` is the C3 order of the current base graph *)
+Definition snap_ok (s : sys) (r : nat) : Prop :=
+  rs_ro (get s r) = r :: rs_vro (get s r) /\
+  (forall y, In y (rs_ro (get s r)) -> y < length s) /\
+  Forall2 le (rs_vgen (get s r)) (gens s (rs_vro (get s r))) /\
+  (gens s (rs_vro (get s r)) = rs_vgen (get s r) -> rs_ro (get s r) = fresh_ro s r).
+
+(* invariant of verifying-flavour systems *)
+Definition VInv (s : sys) : Prop := allVer s /\ ranked (Bs s) /\ forall r, r < length s -> snap_ok s r.
+
 (* ================================================================== Part A *)
 
 Lemma mem_In x l : mem x l = true <-> In x l.
@@ -118,7 +153,6 @@ Proof.
   - destruct (IH N) as (w & Hw & Hz). exists w. split; auto. eapply Reach_step; eauto.
 Qed.
 
-Definition ranked (B : nat -> list nat) : Prop := forall y b, In b (B y) -> b < y.
 
 Lemma Reach_le B : ranked B -> forall x y, Reach B x y -> y <= x.
 Proof. intros R x y H. induction H; auto. apply R in H. lia. Qed.
@@ -491,3 +525,177 @@ Proof.
   destruct (resolve_total _ (ranked_graph _ R) (S (length s)) r) as (m & i & E); [lia|].
   rewrite E. apply (resolve_head _ (ranked_graph _ R) (S (length s)) r m i); auto.
 Qed.
+
+(* ================================================================== Part C: push flavour *)
+
+Lemma get_upd s r f i :
+  get (upd s r f) i = if Nat.eqb i r && Nat.ltb r (length s) then f (get s r) else get s i.
+Proof.
+  destruct (Nat.eqb i r) eqn:E; cbn [andb].
+  - apply Nat.eqb_eq in E. subst. destruct (Nat.ltb r (length s)) eqn:L.
+    + apply Nat.ltb_lt in L. apply get_upd_same; auto.
+    + apply Nat.ltb_ge in L. unfold upd. rewrite set_oob; auto.
+  - apply Nat.eqb_neq in E. apply get_upd_other; auto.
+Qed.
+
+Lemma get_set s r x i :
+  get (set s r x) i = if Nat.eqb i r && Nat.ltb r (length s) then x else get s i.
+Proof. apply (get_upd s r (fun _ => x) i). Qed.
+
+Lemma Reach_ext B B' : (forall x, B x = B' x) -> forall x y, Reach B x y -> Reach B' x y.
+Proof. intros E x y H. induction H; [apply Reach_refl|]. rewrite E in H. eapply Reach_step; eauto. Qed.
+
+Lemma fresh_ro_ext s s' r : length s = length s' -> (forall i, Bs s i = Bs s' i) -> fresh_ro s r = fresh_ro s' r.
+Proof.
+  intros L E. unfold fresh_ro, reg_graph. rewrite L.
+  replace (map rs_bases s') with (map rs_bases s); auto.
+  apply (nth_ext _ _ [] []); rewrite !map_length; auto.
+  intros n _. change (@nil nat) with (rs_bases dummy_rs). rewrite !map_nth. apply E.
+Qed.
+
+(* relations between systems: same base/notification graph; additionally same cached orders *)
+Definition graph_eq (s s' : sys) : Prop :=
+  length s = length s' /\
+  forall i, rs_bases (get s i) = rs_bases (get s' i) /\ rs_subs (get s i) = rs_subs (get s' i) /\
+            rs_flavour (get s i) = rs_flavour (get s' i).
+
+Definition skel_eq (s s' : sys) : Prop :=
+  graph_eq s s' /\ forall i, rs_ro (get s i) = rs_ro (get s' i).
+
+Lemma graph_eq_refl s : graph_eq s s.
+Proof. split; auto. Qed.
+
+Lemma graph_eq_trans a b c : graph_eq a b -> graph_eq b c -> graph_eq a c.
+Proof.
+  intros (L1 & H1) (L2 & H2). split; [congruence|]. intros i.
+  destruct (H1 i) as (? & ? & ?), (H2 i) as (? & ? & ?). repeat split; congruence.
+Qed.
+
+Lemma skel_eq_refl s : skel_eq s s.
+Proof. split; auto using graph_eq_refl. Qed.
+
+Lemma skel_eq_trans a b c : skel_eq a b -> skel_eq b c -> skel_eq a c.
+Proof. intros (G1 & H1) (G2 & H2). split; [eapply graph_eq_trans; eauto|]. intros; congruence. Qed.
+
+Lemma graph_eq_fresh s s' r : graph_eq s s' -> fresh_ro s r = fresh_ro s' r.
+Proof. intros (L & H). apply fresh_ro_ext; auto. intros i. apply H. Qed.
+
+Lemma graph_eq_Bs s s' : graph_eq s s' -> forall i, Bs s i = Bs s' i.
+Proof. intros (L & H) i. apply H. Qed.
+
+(* a one-registry update that keeps the graph fields *)
+Lemma upd_graph_eq s r f :
+  (forall x, rs_bases (f x) = rs_bases x /\ rs_subs (f x) = rs_subs x /\ rs_flavour (f x) = rs_flavour x) ->
+  graph_eq s (upd s r f).
+Proof.
+  intros H. split; [symmetry; apply upd_length|]. intros i. rewrite get_upd.
+  destruct (Nat.eqb i r && Nat.ltb r (length s)) eqn:E; auto.
+  apply andb_true_iff in E. destruct E as (E & _). apply Nat.eqb_eq in E. subst.
+  destruct (H (get s r)) as (? & ? & ?). auto.
+Qed.
+
+Lemma upd_skel_eq s r f :
+  (forall x, rs_bases (f x) = rs_bases x /\ rs_subs (f x) = rs_subs x /\ rs_flavour (f x) = rs_flavour x
+             /\ rs_ro (f x) = rs_ro x) ->
+  skel_eq s (upd s r f).
+Proof.
+  intros H. split.
+  - apply upd_graph_eq. intros x. destruct (H x) as (? & ? & ? & ?). auto.
+  - intros i. rewrite get_upd. destruct (Nat.eqb i r && Nat.ltb r (length s)) eqn:E; auto.
+    apply andb_true_iff in E. destruct E as (E & _). apply Nat.eqb_eq in E. subst.
+    destruct (H (get s r)) as (? & ? & ? & ?). auto.
+Qed.
+
+
+
+Lemma graph_eq_allPush s s' : graph_eq s s' -> allPush s -> allPush s'.
+Proof. intros (L & H) A i. destruct (H i) as (_ & _ & <-). auto. Qed.
+
+Lemma graph_eq_ranked s s' : graph_eq s s' -> ranked (Bs s) -> ranked (Bs s').
+Proof. intros G R y b. rewrite <- (graph_eq_Bs _ _ G). apply R. Qed.
+
+Lemma graph_eq_subs_ok s s' : graph_eq s s' -> subs_ok s -> subs_ok s'.
+Proof.
+  intros (L & H) (S1 & S2). split.
+  - intros r y. destruct (H r) as (_ & <- & _). rewrite <- L. apply S1.
+  - intros r b. unfold Bs. destruct (H r) as (<- & _ & _). destruct (H b) as (_ & <- & _). apply S2.
+Qed.
+
+(* ---- the shape shared by _refresh_ro and changed(): handle r, then every sub-registry *)
+Section Trav.
+  Variable visit : sys -> nat -> sys.
+
+  Fixpoint trav (fuel : nat) (s : sys) (r : nat) : sys :=
+    let s1 := visit s r in
+    match fuel with
+    | 0 => s1
+    | S f => fold_left (fun acc sub => trav f acc sub) (rs_subs (get s r)) s1
+    end.
+
+  Section Pres.
+    Variable R : sys -> sys -> Prop.
+    Hypothesis R_refl : forall s, R s s.
+    Hypothesis R_trans : forall a b c, R a b -> R b c -> R a c.
+    Hypothesis visit_R : forall s r, R s (visit s r).
+
+    Lemma trav_pres : forall f s r, R s (trav f s r).
+    Proof.
+      induction f as [|f IH]; intros s r; cbn [trav]; auto.
+      apply (fold_left_inv (fun acc => R s acc)); auto.
+      intros a b Ha _. eapply R_trans; eauto.
+    Qed.
+  End Pres.
+
+  Variable P : sys -> nat -> Prop.
+  Hypothesis visit_graph : forall s r, graph_eq s (visit s r).
+  Hypothesis visit_P : forall s r, r < length s -> P (visit s r) r.
+  Hypothesis visit_keeps : forall s r x, P s x -> P (visit s r) x.
+
+  Lemma trav_graph f s r : graph_eq s (trav f s r).
+  Proof. apply trav_pres; auto using graph_eq_refl. intros; eapply graph_eq_trans; eauto. Qed.
+
+  Lemma trav_keeps : forall f s r x, P s x -> P (trav f s r) x.
+  Proof.
+    induction f as [|f IH]; intros s r x H; cbn [trav]; auto.
+    apply (fold_left_inv (fun acc => P acc x)); auto.
+  Qed.
+
+  Lemma trav_fold_keeps f l s x : P s x -> P (fold_left (fun acc sub => trav f acc sub) l s) x.
+  Proof. intros. apply (fold_left_inv (fun acc => P acc x)); auto. intros; apply trav_keeps; auto. Qed.
+
+  Lemma trav_fold_graph f l s : graph_eq s (fold_left (fun acc sub => trav f acc sub) l s).
+  Proof.
+    apply (fold_left_inv (fun acc => graph_eq s acc)); auto using graph_eq_refl.
+    intros a b Ha _. eapply graph_eq_trans; eauto using trav_graph.
+  Qed.
+
+  Definition reach_goal (f : nat) : Prop :=
+    forall s r, subs_ok s -> r < length s -> length s <= r + S f ->
+                forall x, Reach (Bs s) x r -> P (trav f s r) x.
+
+  Lemma trav_fold_reach f : reach_goal f ->
+    forall l s0 acc y x, subs_ok s0 -> graph_eq s0 acc -> In y l -> y < length s0 -> length s0 <= y + S f ->
+                         Reach (Bs s0) x y -> P (fold_left (fun acc sub => trav f acc sub) l acc) x.
+  Proof.
+    intros G. induction l as [|a l IH]; intros s0 acc y x S0 E Hy L1 L2 Rx; [destruct Hy|].
+    cbn [fold_left]. destruct (Nat.eq_dec a y) as [->|N].
+    - apply trav_fold_keeps. destruct E as (LE & HE). apply G.
+      + eapply graph_eq_subs_ok; eauto. split; auto.
+      + rewrite <- LE; auto.
+      + rewrite <- LE; auto.
+      + apply (Reach_ext (Bs s0) (Bs acc)); auto. intros i. apply HE.
+    - destruct Hy as [?|Hy]; [congruence|]. eapply IH; eauto.
+      eapply graph_eq_trans; eauto using trav_graph.
+  Qed.
+
+  Lemma trav_reach : forall f, reach_goal f.
+  Proof.
+    induction f as [|f IH]; intros s r S0 L1 L2 x Rx; cbn [trav].
+    - destruct (Nat.eq_dec x r) as [->|N]; auto.
+      destruct (Reach_last _ _ _ Rx N) as (y & _ & Hy). apply S0 in Hy. apply S0 in Hy. lia.
+    - destruct (Nat.eq_dec x r) as [->|N]; [apply trav_fold_keeps; auto|].
+      destruct (Reach_last _ _ _ Rx N) as (y & Ry & Hy). apply S0 in Hy.
+      pose proof (proj1 S0 _ _ Hy).
+      eapply (trav_fold_reach f IH _ s); eauto; lia.
+  Qed.
+End Trav.
